@@ -286,19 +286,32 @@ func c06(c *Ctx) {
 	// ---- R4 symbol name construction for unexported methods
 	// format constants used to build object names
 	fmts := map[string]bool{}
+	// name builders: root-package functions whose result is handed to the by-name symbol lookup
+	nameBuilder := map[*ssa.Function]bool{}
+	for _, f := range p.FuncsIn("") {
+		for _, cs := range callsTo(f, qual("internal/unexports2", "FindFuncByName")) {
+			for _, a := range origins(callCommon(cs).Args[0]) {
+				if cl, ok := a.V.(*ssa.Call); ok {
+					if cal := staticCallee(cl.Common()); cal != nil && relPkg(cal) == "" {
+						nameBuilder[cal] = true
+					}
+				}
+			}
+		}
+	}
 	for _, f := range p.FuncsIn("") {
 		for _, cs := range callsTo(f, "fmt.Sprintf") {
 			if c, ok := callCommon(cs).Args[0].(*ssa.Const); ok && c.Value != nil && c.Value.Kind() == constant.String {
 				fmts[shortName(f)+"|"+constant.StringVal(c.Value)] = true
-				if f.Signature.Recv() != nil {
-					fmts["methods of "+types.TypeString(f.Signature.Recv().Type(), func(*types.Package) string { return "mocker" })+"|"+constant.StringVal(c.Value)] = true
+				if f.Signature.Recv() != nil && nameBuilder[f] {
+					fmts["name builder of "+types.TypeString(f.Signature.Recv().Type(), func(*types.Package) string { return "mocker" })+"|"+constant.StringVal(c.Value)] = true
 				}
 			}
 		}
 	}
 	for _, spec := range []struct{ fn, want string }{
-		{"methods of *mocker.UnexportedMethodMocker", "%s.%s.%s"},
-		{"methods of *mocker.UnexportedFuncMocker", "%s.%s"},
+		{"name builder of *mocker.UnexportedMethodMocker", "%s.%s.%s"},
+		{"name builder of *mocker.UnexportedFuncMocker", "%s.%s"},
 		{"(*mocker.MethodMocker).ExportMethod", "(%s)"},
 		{"(*mocker.Builder).ExportStruct", "(%s)"},
 	} {
